@@ -61,6 +61,15 @@ func validHeader(b byte) bool {
 
 func TestCheck(t *testing.T) {
 	mc.Main(t, "C09", func(r *mc.Run) {
+		if !r.Replaying() {
+			for _, v6 := range []bool{false, true} {
+				for _, ps := range []kit.PathSpec{{Kind: "empty"}, {Kind: "scion", Segs: []int{2, 2}}, {Kind: "onehop"}} {
+					if r.Mine() {
+						runSCION(r, v6, ps)
+					}
+				}
+			}
+		}
 		for _, nsock := range []int{1, 2} {
 			if r.Replaying() {
 				var in dgram
@@ -82,7 +91,7 @@ func TestCheck(t *testing.T) {
 			}
 			runIP(r, nsock, nil)
 		}
-		r.Extra["rule"] = "IP listener (1 and 2 SO_REUSEPORT sockets): all 256 first bytes x 4 header fills x 10 datagram lengths (0..2048) x trailers {zeros, 0xff, constant}; valid NTS requests (pool levels 8 and 5) around every first byte, and with single flipped bytes; every reply is fed back into the listener. Distinct = distinct datagrams; non-trivial = length >= 48 (reaches validation)"
+		r.Extra["rule"] = "SCION listener (IPv4/IPv6 hosts x empty / two-segment SCION / one-hop path): the same payload space inside valid SCION/UDP packets, replies parsed with the SCION library (last hop, reversed path, swapped addresses and ports); IP listener (1 and 2 SO_REUSEPORT sockets): all 256 first bytes x 4 header fills x 10 datagram lengths (0..2048) x trailers {zeros, 0xff, constant}; valid NTS requests (pool levels 8 and 5) around every first byte, and with single flipped bytes; every reply is fed back into the listener. Distinct = distinct datagrams; non-trivial = length >= 48 (reaches validation)"
 	})
 }
 
@@ -260,5 +269,127 @@ func runIP(r *mc.Run, nsock int, only *dgram) {
 			}
 		}
 		_ = nts.MaxPacketLen
+	})
+}
+
+// runSCION: the same payload space through the SCION listener.
+func runSCION(r *mc.Run, v6 bool, ps kit.PathSpec) {
+	scen := fmt.Sprintf("scion/v6=%v/%s", v6, ps.Kind)
+	x := &mc.X{}
+	world.Run(r.T, x, func(w *world.World) {
+		server.VerifResetTSS()
+		sess := kit.NewSession(7)
+		sh, ch := kit.SrvHost, kit.CliHost
+		if v6 {
+			sh, ch = netip.MustParseAddr("fd00::1"), netip.MustParseAddr("fd00::2")
+		}
+		sw := kit.NewSCIONWorld(w, sh, false, sess.Provider)
+		rev, rtype, _ := ps.Reversed()
+		n := 0
+		send := func(d dgram, payload []byte, expectReply bool) {
+			r.Journal(fmt.Sprintf("%s %+v", scen, d))
+			n++
+			srcPort := uint16(20000 + n%30000)
+			pk := &kit.Pkt{SrcIA: kit.CliIA, DstIA: kit.SrvIA, SrcHost: ch, DstHost: sh, Path: ps, L4: "udp", SrcPort: srcPort, DstPort: kit.SrvPort, Payload: payload}
+			out := sw.Send(sw.Svc, kit.Router, pk.Bytes())
+			r.Evals++
+			if len(payload) >= 48 {
+				r.Distinct++
+			}
+			if len(w.Panics) > 0 {
+				p := w.Panics[0]
+				w.Panics = nil
+				f := mc.PanicFailure(p.Value, p.Stack)
+				r.Fail(scen, f.Signature, f.Message, d)
+				sw.Svc = sw.Start(kit.SrvPort)
+				return
+			}
+			want := 0
+			if expectReply {
+				want = 1
+			}
+			if len(out) != want {
+				sig := "reply-to-invalid-request"
+				if expectReply {
+					sig = "no-reply-to-valid-request"
+				}
+				if len(out) > 1 {
+					sig = "more-than-one-reply"
+				}
+				r.Fail(scen, sig, fmt.Sprintf("SCION payload %+v (%d bytes, first byte %#02x): %d replies, want %d", d, len(payload), d.First, len(out), want), d)
+				return
+			}
+			for _, o := range out {
+				pr, err := kit.Parse(o.Data)
+				if err != nil || pr.UDP == nil {
+					r.Fail(scen, "reply-undecodable", fmt.Sprintf("%v (%+v)", err, d), d)
+					continue
+				}
+				if o.To != kit.Router {
+					r.Fail(scen, "reply-not-to-sender", fmt.Sprintf("reply written to %v, request came from %v", o.To, kit.Router), d)
+				}
+				sa, _ := netip.AddrFromSlice(pr.SCION.RawSrcAddr)
+				da, _ := netip.AddrFromSlice(pr.SCION.RawDstAddr)
+				if pr.SCION.SrcIA != kit.SrvIA || pr.SCION.DstIA != kit.CliIA || sa != sh || da != ch || pr.UDP.SrcPort != kit.SrvPort || pr.UDP.DstPort != srcPort {
+					r.Fail(scen, "reply-not-to-sender", fmt.Sprintf("reply %v,%v:%d -> %v,%v:%d", pr.SCION.SrcIA, sa, pr.UDP.SrcPort, pr.SCION.DstIA, da, pr.UDP.DstPort), d)
+				}
+				if pr.SCION.PathType != rtype || string(pr.RawPath) != string(rev) {
+					r.Fail(scen, "reply-path-not-reversed", fmt.Sprintf("reply path type %v %x, want %v %x", pr.SCION.PathType, pr.RawPath, rtype, rev), d)
+				}
+				var p ntp.Packet
+				if err := ntp.DecodePacket(&p, pr.UDP.Payload); err != nil {
+					r.Fail(scen, "reply-undecodable", fmt.Sprintf("%v (%+v)", err, d), d)
+					continue
+				}
+				if p.Version() != 4 || p.Mode() != ntp.ModeServer || p.Stratum != 1 {
+					r.Fail(scen, "reply-header-fields", fmt.Sprintf("reply VN=%d mode=%d stratum=%d", p.Version(), p.Mode(), p.Stratum), d)
+				}
+				// reflection: the reply's payload sent back as a request must not be answered
+				pk2 := &kit.Pkt{SrcIA: kit.CliIA, DstIA: kit.SrvIA, SrcHost: ch, DstHost: sh, Path: ps, L4: "udp", SrcPort: srcPort, DstPort: kit.SrvPort, Payload: pr.UDP.Payload}
+				r.Evals++
+				if out2 := sw.Send(sw.Svc, kit.Router, pk2.Bytes()); len(out2) != 0 {
+					r.Fail(scen, "reply-answered-when-fed-back", fmt.Sprintf("%d replies to a reflected reply", len(out2)), d)
+				}
+			}
+		}
+		for first := 0; first < 256; first++ {
+			for _, fill := range []string{"zeros", "client"} {
+				for _, l := range []int{0, 1, 47, 48, 49, 76, 100, 1024} {
+					trailers := []string{"zeros"}
+					if l > 48 {
+						trailers = []string{"zeros", "const"}
+					}
+					for _, tr := range trailers {
+						d := dgram{First: first, Fill: fill, Len: l, Trailer: tr}
+						h := header(byte(first), fill)
+						var p []byte
+						if l <= 48 {
+							p = h[:l]
+						} else {
+							p = make([]byte, l)
+							copy(p, h)
+							if tr == "const" {
+								for i := 48; i < l; i++ {
+									p[i] = byte(0x3c + i%5)
+								}
+							}
+						}
+						send(d, p, l == 48 && validHeader(byte(first)))
+					}
+				}
+			}
+			for _, pool := range []int{8, 5} {
+				h := header(byte(first), "client")
+				pkt, _ := sess.Request(h, pool)
+				d := dgram{First: first, Fill: "client", Trailer: fmt.Sprintf("nts%d", pool), Len: len(pkt)}
+				send(d, pkt, validHeader(byte(first)))
+				for _, f := range []int{1, 47, 52, len(pkt) - 1} {
+					m := append([]byte{}, pkt...)
+					m[f] ^= 0x01
+					d.Flip = f
+					send(d, m, false)
+				}
+			}
+		}
 	})
 }
